@@ -273,7 +273,7 @@ impl Udp {
             target_addr: None,
             broadcast: DEFAULT_BROADCAST,
             multicast_loop: DEFAULT_MULTICAST_LOOP,
-            queue: tx,
+            queue: tx.clone(),
         };
 
         match self.binds.entry(addr.port()) {
@@ -285,7 +285,7 @@ impl Udp {
 
         tracing::info!(target: TRACING_TARGET, ?addr, protocol = %"UDP", "Bind");
 
-        Ok(UdpSocket::new(addr, rx))
+        Ok(UdpSocket::new(addr, tx, rx))
     }
     pub(crate) fn connect(&mut self, src: SocketAddr, dst: SocketAddr) {
         let Some(bind) = self.binds.get_mut(&src.port()) else {
